@@ -226,7 +226,7 @@ func c06PGrid() []float64 {
 
 func c06Run(c *core.Ctx) {
 	r := c.R
-	hN, bN := 40, 60
+	hN, bN := 40, 70
 	big := []int{100, 1000}
 	if c.Thorough() {
 		hN, bN = 80, 100
